@@ -95,7 +95,7 @@ def observe(ex, scn):
 
 
 def explore_request(engine, schema, text, located, variables, root, faults, fault_values, tier, out, label, cfg_label,
-                    suspend_hooks=False):
+                    suspend_hooks=False, max_i=None):
     scn = Scenario(root=root, faults=faults, fault_values=fault_values)
     scn.suspend_hooks = suspend_hooks
     exp = X.execute_request(schema, located, None, variables, scn)
@@ -146,7 +146,7 @@ def explore_request(engine, schema, text, located, variables, root, faults, faul
         if clause and state["viol"] is None:
             state["viol"] = (clause, list(ex.choices), r if ex.status == "ok" else repr(ex.exception))
 
-    st = sched.explore(loop, make_task, on, max_i=MAX_I[tier], max_executions=CAP[tier])
+    st = sched.explore(loop, make_task, on, max_i=MAX_I[tier] if max_i is None else max_i, max_executions=CAP[tier])
     out["counts"]["schedules"] += st["executions"]
     out["counts"]["choice_points"] += st["choice_points"]
     out["counts"]["nontrivial_schedules"] += state["nontrivial"]
@@ -202,8 +202,10 @@ def run_shard(item):
                 explore_request(engine, schema, text, located, variables, root, {p: fault}, {}, "quick", out, text, cfg["label"])
             # a null *item* of a list (first / last): lists are completed concurrently or one by one
             for label, fault, value in c02.kinds_for(schema, fd, c02.NATURAL.get(p)):
-                if label in ("item-null-first", "item-null-last"):
-                    explore_request(engine, schema, text, located, variables, root, {p: fault}, {p: value}, "quick", out, text, cfg["label"])
+                if label in ("item-null-first", "item-null-last", "item-null-at-137-of-150"):
+                    # (the 150-item list: all completion orders, no injections -- every item adds callback gaps)
+                    explore_request(engine, schema, text, located, variables, root, {p: fault}, {p: value}, "quick", out, text, cfg["label"],
+                                    max_i=0 if "150" in label else None)
     # determinism self-check: replay one non-default schedule twice
     loop = vloop()
     scn = Scenario(root=root)
